@@ -193,7 +193,7 @@ Theorem process_safe :
     let s := exec repaired (init fans nmons) sched in
     (forall site, st s <> Crashed site) /\
     (terminated s ->
-     forall c, In c (ctrls s) -> c_started c = true ->
+     forall c, In c (ctrls s) -> c_started c = true \/ c_touched c = true ->
        exists p r, c_restore c = Some (p, r) /\ c_dev c = r_dev r /\
                    (safe (sup c) (c_orig c) (c_dev c) \/ last_resort_write_failed p r)).
 Proof.
@@ -270,12 +270,21 @@ Example process_repaired_init_fails :
   st s = Exited 1 /\ map c_dev (ctrls s) = [mkDev 1 255; mkDev 2 90].
 Proof. vm_compute. repeat split. Qed.
 
-(* a start-up gap that remains (not part of "regulation began"): the second
-   LoadFanPwmData / AttachFanRpmCurveData failing AFTER a successful
-   initialisation sequence returns without restorePwmEnabled *)
+(* D23 as found: the second LoadFanPwmData / AttachFanRpmCurveData failing AFTER a
+   successful initialisation sequence returned without restorePwmEnabled: the
+   swept fan stays in manual mode at the last measured PWM *)
 Definition adv_init_ok : adv := mkAdv false true false false (mkDev 1 200) ROk ROk 0 plan_ok.
 Definition adv_fail : adv := mkAdv true false false false (mkDev 1 0) ROk ROk 0 plan_ok.
-Example process_startup_gap :
-  let s := exec repaired (init one_fan 0) [Advance 0 adv_ok; Advance 0 adv_ok; Advance 0 adv_init_ok; Advance 0 adv_fail; SigRecv; Finish] in
-  st s = Exited 1 /\ map c_dev (ctrls s) = [mkDev 1 200] /\ map c_started (ctrls s) = [false] /\ map c_touched (ctrls s) = [true].
+Definition sched_attach_fails : list event :=
+  [Advance 0 adv_ok; Advance 0 adv_ok; Advance 0 adv_init_ok; Advance 0 adv_fail; SigRecv; Finish].
+
+Theorem process_d23_refuted :
+  let s := exec d23_only (init one_fan 0) sched_attach_fails in
+  st s = Exited 1 /\ map c_dev (ctrls s) = [mkDev 1 200] /\ map c_touched (ctrls s) = [true]
+  /\ map c_restore (ctrls s) = [None].
+Proof. vm_compute. repeat split. Qed.
+
+Example process_repaired_attach_fails :
+  let s := exec repaired (init one_fan 0) sched_attach_fails in
+  st s = Exited 1 /\ map c_dev (ctrls s) = [mkDev 2 90] /\ map c_touched (ctrls s) = [true].
 Proof. vm_compute. repeat split. Qed.
